@@ -35,7 +35,12 @@ func (c15) Plan(tier string) fw.Plan {
 }
 
 func (c15) RunCase(c *fw.Ctx, rng *fw.RNG, batch, i int) {
-	g, root, s, sel, err := travSetup(rng, graphgen.Opts{MaxBlocks: 8, MaxDepth: 3, MaxWidth: 4, RawBlocks: true, NumLookalikes: true}, selgen.Opts{MaxDepth: 4})
+	gopts := graphgen.Opts{MaxBlocks: 8, MaxDepth: 3, MaxWidth: 4, RawBlocks: true, NumLookalikes: true}
+	sopts := selgen.Opts{MaxDepth: 4}
+	if deepCase(c, i) {
+		gopts.MaxBlocks, gopts.MaxDepth, gopts.MaxWidth, sopts.MaxDepth = 12, 4, 5, 6
+	}
+	g, root, s, sel, err := travSetup(rng, gopts, sopts)
 	if err != nil || sel == nil {
 		c.Count("selector_compile_errors", 1)
 		c.Seen(0, false)
